@@ -17,7 +17,7 @@ RULE = ('configuration = swarm size 1..6, argument dictionary (random tuples per
         'run-to-block policies. distinct_nontrivial = distinct (configuration, interleaving signature).')
 ASSUMPTIONS = ['members are duck-typed SyncCrazyflie stand-ins (open_link / close_link / cf); a subset of cases uses real '
                'SyncCrazyflie objects over the sim:// driver']
-REQUIRED = ['mon.real_swarm_opened_a_third_time_after_two_failures', 'mon.real_members_closed_while_their_parameter_callbacks_keep_the_incoming_thread_busy', 'mon.parallel_safe', 'mon.parallel', 'mon.sequential', 'mon.open_failures', 'mon.double_open', 'mon.real_members',
+REQUIRED = ['mon.overlapping_swarm_steps_nested', 'mon.overlapping_swarm_steps_callers', 'mon.overlapping_steps_where_only_one_has_a_failing_action', 'mon.real_swarm_opened_a_third_time_after_two_failures', 'mon.real_members_closed_while_their_parameter_callbacks_keep_the_incoming_thread_busy', 'mon.parallel_safe', 'mon.parallel', 'mon.sequential', 'mon.open_failures', 'mon.double_open', 'mon.real_members',
             'mon.actions_invoked', 'mon.argument_dictionaries_in_another_order',
             'mon.real_swarm_reopened_with_a_link_dropping_in_the_handshake', 'mon.actions_raising_errors_without_a_text_argument']
 DESC_TIMEOUT = 900
@@ -30,6 +30,8 @@ def cases(tier, seed):
         out.append({'n': n, 'part': 'actions', 'S': S, 'seed': seed * 131 + n})
         if n <= 4:
             out.append({'n': n, 'part': 'open', 'S': S, 'seed': seed * 131 + n})
+        if n >= 2:
+            out.append({'n': n, 'part': 'overlap', 'S': S * 2, 'seed': seed * 131 + n})
     for i in range(24 if tier == 'quick' else 96):
         out.append({'n': 3, 'part': 'real', 'S': 1, 'seed': seed * 1009 + i})
     for i in range(288 if tier == 'quick' else 1200):
@@ -207,6 +209,92 @@ def run_actions(desc, ctx):
             ctx.nontrivial((n, tuple(sorted(failing)), use_args, sch.signature()))
             first = first or {'uris': uris, 'failing': sorted(failing), 'args': core.jsonable(args), 'switches': sch.switches}
     ctx.sample(first)
+
+
+def run_overlap(desc, ctx):
+    """Several swarm-wide steps of one Swarm in flight at the same time: an action that itself performs a swarm-wide step
+    (nested), and two application threads that each run a step. Every call is judged on its own actions: it raises iff
+    one of ITS actions raised, chaining one of THOSE errors, and returns only after all of ITS actions finished."""
+    harness.init()
+    from vf import detsched as ds
+    from cflib.crazyflie.swarm import Swarm
+    import threading
+    n = desc['n']
+    uris = ['sim://m%d' % i for i in range(n)]
+    for si in range(desc['S']):
+        arnd = random.Random(desc['seed'] * 6007 + si)
+        shape = ('nested', 'callers')[si % 2]
+        # the failing subsets of the two steps ('A' = outer / first caller, 'B' = inner / second caller)
+        fail = {k: {u for u in uris if arnd.random() < (0.4 if k == 'A' else 0.25)} for k in 'AB'}
+        delays = {(k, u): arnd.choice((0.0, 0.01, 0.02, 0.05, 0.1)) for k in 'AB' for u in uris}
+        nester = arnd.choice(uris)
+        if shape == 'nested':
+            fail['A'].discard(nester) if arnd.random() < 0.7 else None
+        start_b = arnd.choice((0.0, 0.005, 0.03, 0.06))
+        log = []
+        fac = Factory(log, set())
+        ob = {}
+        ends = {'A': [], 'B': []}
+
+        def mk(k, sw):
+            def action(scf, *a):
+                ds.v_sleep(delays[(k, scf.uri)])
+                if k == 'A' and shape == 'nested' and scf.uri == nester:
+                    call('B', sw)
+                    ds.v_sleep(arnd.choice((0.0, 0.02)))
+                ends[k].append((scf.uri, ds.CUR.steps))
+                if scf.uri in fail[k]:
+                    e = Fail(k, scf.uri)
+                    e.member = (k, scf.uri)
+                    raise e
+            return action
+
+        def call(k, sw):
+            exc = None
+            try:
+                sw.parallel_safe(mk(k, sw))
+            except Exception as e:  # noqa
+                exc = e
+            ob[k] = (exc, ds.CUR.steps)
+
+        def fn(s):
+            sw = Swarm(uris, factory=fac)
+            if shape == 'nested':
+                call('A', sw)
+            else:
+                tb = threading.Thread(target=lambda: (ds.v_sleep(start_b), call('B', sw)))
+                tb.start()
+                call('A', sw)
+                tb.join()
+        pol = ('random', 'pct', 'rtb')[si % 3]
+        _, abort, sch = harness.sched_case(fn, seed=desc['seed'] * 37 + si, policy=pol, line_p=harness.line_p_for(desc['seed'] * 37 + si, 4, 0.2), horizon=600.0)
+        ctx.evals()
+        info = {'uris': uris, 'shape': shape, 'failing': {k: sorted(v) for k, v in fail.items()}, 'nester': nester, 'schedule': pol}
+        rp = dict(desc)
+        if abort is not None or sch.deaths:
+            ctx.violate('swarm:overlap:hang-or-thread-death', dict(info, abort=str(abort), deaths=[d[1] for d in sch.deaths][:2]), replay=rp)
+            continue
+        ctx.count('mon.overlapping_swarm_steps_%s' % shape)
+        for k in 'AB':
+            if k not in ob:
+                ctx.violate('swarm:overlap:step-never-returned', dict(info, step=k), replay=rp)
+                continue
+            exc, ret_step = ob[k]
+            raised = set(fail[k])
+            if sorted(u for u, _ in ends[k]) != sorted(uris):
+                ctx.violate('swarm:overlap:action-not-invoked-exactly-once-per-member', dict(info, step=k, ran=sorted(u for u, _ in ends[k])), replay=rp)
+            if any(st > ret_step for _, st in ends[k]):
+                ctx.violate('swarm:overlap:parallel_safe-returned-before-every-action-finished', dict(info, step=k), replay=rp)
+            if (exc is not None) != bool(raised):
+                ctx.violate('swarm:overlap:parallel_safe-raises-iff-one-of-its-own-actions-raised-violated',
+                            dict(info, step=k, raised=repr(exc), cause=repr(getattr(exc, '__cause__', None))), replay=rp)
+            elif exc is not None:
+                m = getattr(exc.__cause__, 'member', None)
+                if m is None or m[0] != k or m[1] not in raised:
+                    ctx.violate('swarm:overlap:parallel_safe-cause-is-not-one-of-its-own-raised-errors', dict(info, step=k, cause=repr(exc.__cause__)), replay=rp)
+            if raised and fail['AB'.replace(k, '')] == set():
+                ctx.count('mon.overlapping_steps_where_only_one_has_a_failing_action')
+        ctx.nontrivial(('overlap', n, shape, tuple(sorted(fail['A'])), tuple(sorted(fail['B'])), sch.signature()))
 
 
 def _refused_reopen(sw, log, ob):
